@@ -57,10 +57,10 @@ type Member struct {
 
 type Archive struct {
 	Members     []Member `json:"members"`
-	EOCDComment int      `json:"eocd_comment"` // 0 none, 1 ten bytes
-	ForceZip64  int      `json:"force_zip64"`  // 0 none, 1 zip64 end+locator with masked EOCD, 2 present with unmasked EOCD
-	CDOrder     int      `json:"cd_order"`     // 0 body order, 1 reversed, 2 rotated by one
-	GapBetween  bool     `json:"gap_between"`  // 7 unrelated bytes between consecutive members
+	EOCDComment int      `json:"eocd_comment"`  // 0 none, 1 ten bytes
+	ForceZip64  int      `json:"force_zip64"`   // 0 none, 1 zip64 end+locator with masked EOCD, 2 present with unmasked EOCD
+	CDOrder     int      `json:"cd_order"`      // 0 body order, 1 reversed, 2 rotated by one
+	GapBetween  bool     `json:"gap_between"`   // 7 unrelated bytes between consecutive members
 	GapBeforeCD bool     `json:"gap_before_cd"` // 7 unrelated bytes between the last member and the central directory
 }
 
@@ -128,7 +128,7 @@ func (a Archive) ArchFeatures() string {
 func DefaultMember() Member { return Member{Size: 1} }
 
 type MemberLayout struct {
-	Index        int    // body index (position in Archive.Members)
+	Index        int // body index (position in Archive.Members)
 	Name         string
 	HeaderOffset int64
 	DataOffset   int64
